@@ -1,7 +1,7 @@
 #!/usr/bin/env python3
 """Behaviour-preserving rewrite of a source tree used to test the checker: every local variable of every
 function is renamed (suffix), comments are dropped and the layout is normalised (ast.unparse).
-usage: alpha_rename.py <root> [suffix]   - rewrites <root>/syne_tune/**/*.py in place (use on a scratch worktree!)
+usage: alpha_rename.py <root> [suffix | @]   (@: scramble - new names share nothing with the old ones)   - rewrites <root>/syne_tune/**/*.py in place (use on a scratch worktree!)
 """
 import ast
 import os
@@ -58,9 +58,17 @@ class Renamer(ast.NodeTransformer):
 
     def visit_FunctionDef(self, fn):
         loc = self._locals_of(fn)
+        if self.suffix == "@":
+            # scramble: the new name shares nothing with the old one
+            self.depth = getattr(self, "depth", 0) + 1
+            loc = {n: f"zq{self.depth}_{i}" for i, n in enumerate(sorted(loc))}
+        else:
+            loc = {n: n + self.suffix for n in loc}
         self.stack.append(loc)
         fn.body = [self.visit(s) for s in fn.body]
         self.stack.pop()
+        if self.suffix == "@":
+            self.depth -= 1
         return fn
 
     visit_AsyncFunctionDef = visit_FunctionDef
@@ -68,7 +76,7 @@ class Renamer(ast.NodeTransformer):
     def visit_Name(self, n):
         for loc in reversed(self.stack):
             if n.id in loc:
-                return ast.copy_location(ast.Name(id=n.id + self.suffix, ctx=n.ctx), n)
+                return ast.copy_location(ast.Name(id=loc[n.id], ctx=n.ctx), n)
         return n
 
     def visit_ClassDef(self, c):
